@@ -16,7 +16,7 @@ Fixpoint units_of_be (bs : bytes) : list N :=
   | a :: b :: r => be_unit a b :: units_of_be r
   end.
 
-(* ---------------- pinned tree ---------------- *)
+(* ---------------- pinned tree (before the two fix: commits) ---------------- *)
 
 Definition text_string_pinned (s : ustring) : obj :=
   if is_ascii s then OStr (utf8_encode s) false
@@ -41,6 +41,34 @@ Definition decode_text_string_pinned (o : obj) : res ustring :=
 
 (* ---------------- current tree ---------------- *)
 
-Definition text_string (s : ustring) : obj := text_string_pinned s.
+Definition opt_N_eqb (a b : option N) : bool :=
+  match a, b with
+  | Some x, Some y => x =? y
+  | None, None => true
+  | _, _ => false
+  end.
 
-Definition decode_text_string (o : obj) : res ustring := decode_text_string_pinned o.
+(* text.bytes().all(|b| b.is_ascii() && PDF_DOC_ENCODING[b as usize] == Some(u16::from(b))) *)
+Definition self_encoded (b : byte) : bool :=
+  (N_of_byte b <? 128) && opt_N_eqb (cell TEXT_STRING_SELF_TABLE b) (Some (N_of_byte b)).
+
+Definition text_string (s : ustring) : obj :=
+  if forallb self_encoded (utf8_encode s) then OStr (utf8_encode s) false
+  else OStr (encode_utf16_be s) true.
+
+Definition decode_text_string (o : obj) : res ustring :=
+  match o with
+  | OStr s _ =>
+    if prefixb DEC_MARK_UTF16 s then
+      match utf16_decode (units_of_be (drop DEC_SKIP_UTF16 s)) with
+      | Some t => Ok t
+      | None => Err ETextStringDecode
+      end
+    else if prefixb DEC_MARK_UTF8 s then
+      match utf8_decode (drop DEC_SKIP_UTF8 s) with
+      | Some t => Ok t
+      | None => Err ETextStringDecode
+      end
+    else bytes_to_string TEXT_STRING_ENCODING s
+  | _ => Err EObjectType
+  end.
